@@ -100,10 +100,15 @@ Proof.
   - cbn. lia.
 Qed.
 
+Lemma bg_deadline_bounds x : 0 <= xp_bg_deadline x <= xp_timeout x.
+Proof.
+  pose proof (xp_timeout_pos x) as HT. unfold xp_bg_deadline. destruct (xp_deadline x) as [dl|]; lia.
+Qed.
+
 Lemma request_end_bounds x :
   0 <= xp_cut x <= xp_timeout x /\
   (match xp_latency x with Some d => 0 <= d | None => True end -> 0 <= xp_request_end x <= xp_timeout x).
 Proof.
-  pose proof (xp_timeout_pos x) as HT. unfold xp_request_end, xp_cut.
-  destruct (xp_cancel x) as [c|]; destruct (xp_latency x) as [d|]; lia.
+  pose proof (xp_timeout_pos x) as HT. unfold xp_request_end, xp_cut, xp_bg_deadline.
+  destruct (xp_cancel x) as [c|]; destruct (xp_deadline x) as [dl|]; destruct (xp_latency x) as [d|]; lia.
 Qed.
